@@ -368,6 +368,55 @@ func runBracketPaths(res *Result) {
 	}
 }
 
+// runEdgeTemplates: the error branches of the interpreter that no generated template reaches
+// (found by measuring statement coverage of the engine under the checks): each must end in a
+// returned error or empty output, on a new context and on a reused one.
+func runEdgeTemplates(res *Result) {
+	edges := []string{
+		`{% if len() > 0 %}a{% endif %}`, `{% if cap() == 1 %}a{% endif %}`, `{% if lenEq0("abc") %}a{% else %}b{% endif %}`, `{% if lenGt0() %}a{% endif %}`,
+		`{% if nohelper(user.Id) %}a{% endif %}`, `{% switch %}{% case nohelper(user.Id) %}a{% default %}d{% endswitch %}`, `{% switch %}{% case lenGt0("x") %}a{% endswitch %}`,
+		`{% switch %}{% case 1 == 1 %}a{% default %}d{% endswitch %}`, `{% switch %}{% case "a" != "b" %}a{% endswitch %}`, `{% if 1 == 2 %}a{% endif %}`,
+		`{%= len(user.Name) > 0 ? user.Id : user.Name %}`, `{%= lenEq0(user.Name) ? user.Id : user.Name %}`, `{%= cap(user.Name) >= 0 ? user.Id : user.Name %}`,
+		`{% for i := 0; i == 0; i++ %}x{% endfor %}`, `{% for i := 0; i < 3; i %}x{% endfor %}`, `{% for i := 0; i < user; i++ %}x{% endfor %}`, `{% for i := user.Name; i < 3; i++ %}x{% endfor %}`,
+		`{% counter c = 1 %}{% ctx c = user %}{% counter c++ %}{%= c %}`, `{% counter user++ %}{%= user.Id %}`, `{% counter q-- %}{%= q %}`,
+		`{% if user == 1 %}a{% else %}b{% endif %}`, `{% if user.Finance > 1 %}a{% endif %}`, `{% if user.Flags == user.Flags %}a{% endif %}`, `{% if user.Id == user %}a{% endif %}`,
+		`{% if cap(user.Finance.History) > 1 %}a{% endif %}`, `{% if len(user.Flags) > 0 %}a{% endif %}`, `{% if len(user) > 0 %}a{% endif %}`, `{% if len(nosuch) == 0 %}a{% endif %}`,
+		`{%= x|default() %}`, `{%= x|ifThen() %}`, `{%= x|ifThenElse("a") %}`, `{%= user|default("d") %}`, `{%= user.Finance %}`, `{%= user.Flags|jsonQuote %}`,
+		`{% ctx z = user.Finance.History %}{%= z %}`, `{% ctx z = user|default(1) %}{%= z %}`, `{% ctx z, ok = nosuch|default(user) %}{%= ok %}`,
+		`{% for _, h := range user %}x{% endfor %}`, `{% for _, h := range user.Id %}x{% endfor %}`, `{% for k, v := range user.Flags %}{%= k %}={%= v %};{% endfor %}`, `{% for k := range user.Name %}{%= k %}{% endfor %}`,
+		`{% include %}`, `{% include a b c d e %}`, `{% . %}`, `{% if v, ok := vok().(static); ok %}a{% endif %}`, `{% if v, ok := vok(user).(static); !ok %}a{% endif %}`, `{% if v, ok := nohelper(user.Id).(static); ok %}a{% endif %}`,
+		`{% if v, ok := vok(user.Id).(nosuchins); ok %}a{% endif %}`, `{% if v, ok := vok(user.Id); ok %}a{% endif %}`,
+		`{% jsonquote %}{% htmlescape %}{% urlencode %}<"&{%= user.Id %}{% endjsonquote %}x{% endurlencode %}y{% endhtmlescape %}z`, `{% endjsonquote %}{% endhtmlescape %}a"<`,
+		`{% break %}`, `{% lazybreak 3 %}`, `{% continue %}`, `{% exit %}a`, `a{% break 2 if user.Id == "x" %}b`,
+	}
+	g := &Gen{r: NewRNG(11), p: profiles["ALL"], flits: map[string]float64{}, tags: map[string]bool{}}
+	g.genData()
+	g.data.User.Present, g.data.User.HasFinance = true, true
+	for _, src := range edges {
+		res.Evaluations++
+		key, _, po := parseDump([]byte(src), false)
+		res.Hist("edges:parse-" + po.ErrClass())
+		if po.ErrClass() == "PANIC" || po.ErrClass() == "HANG" {
+			res.OracleFails++
+			res.AddViolation(&Violation{Kind: "failing-input", Class: "parse:" + po.ErrClass(), What: fmt.Sprintf("Parse of %q: %s %s", src, po.ErrClass(), po.Panic), Replay: map[string]any{"template": src}})
+			continue
+		}
+		if po.ErrClass() != "OK" {
+			continue
+		}
+		for _, obs := range []Obs{renderRun(key, g.data, 0, 0).Obs, warmRun(key, g.data)} {
+			res.Hist("edges:render-" + obs.ErrClass())
+			if (obs.Panic != "" && obs.InRepo()) || obs.Hang {
+				res.OracleFails++
+				res.AddViolation(&Violation{Kind: "failing-input", Class: "render:" + obs.ErrClass(), What: fmt.Sprintf("rendering %q: %s %s", src, obs.ErrClass(), obs.Panic),
+					Replay: map[string]any{"template": src, "data_slots": g.data.Slots(), "panic": obs.Panic}})
+				break
+			}
+		}
+		res.Distinct("edge:" + src)
+	}
+}
+
 func runC13(o *Options) *Result {
 	res := runInterp(o, "C13", profiles["ALL"], 120, 3000, corrInterp)
 	if res.InfraError != "" {
@@ -375,6 +424,7 @@ func runC13(o *Options) *Result {
 	}
 	runSweep(res, "C13", o.Tier == "thorough")
 	runBracketPaths(res)
+	runEdgeTemplates(res)
 	n := 1500
 	if o.Tier == "thorough" {
 		n = 60000
